@@ -16,7 +16,7 @@ import (
 )
 
 func main() {
-	debug.SetGCPercent(400)
+	debug.SetGCPercent(200)
 	if len(os.Args) < 2 {
 		fmt.Fprintln(os.Stderr, "usage: gosmt check <property> [flags] | gosmt list | gosmt replay <file>")
 		os.Exit(2)
@@ -91,6 +91,14 @@ func cmdCheck(args []string) int {
 	if err != nil {
 		fmt.Fprintln(os.Stderr, "load failed:", err)
 		return 2
+	}
+	if mp := os.Getenv("GOSMT_MEMPROF"); mp != "" {
+		go func() {
+			time.Sleep(45 * time.Second)
+			f, _ := os.Create(mp)
+			pprof.WriteHeapProfile(f)
+			f.Close()
+		}()
 	}
 	if *cpuprof != "" {
 		f, _ := os.Create(*cpuprof)
